@@ -1,0 +1,51 @@
+//go:build verif
+
+package asn1
+
+import "strconv"
+
+// ZVFieldParametersText runs parseFieldParameters on a struct tag and renders the result canonically (verification hook,
+// build tag verif only): o optional, e explicit, a application, v private, d<n> default, t<n> tag, s<n> string type,
+// m<n> time type, S set, E omitempty; comma separated, "-" when nothing is set.
+func ZVFieldParametersText(tag string) string {
+	p := parseFieldParameters(tag)
+	var parts []string
+	if p.optional {
+		parts = append(parts, "o")
+	}
+	if p.explicit {
+		parts = append(parts, "e")
+	}
+	if p.application {
+		parts = append(parts, "a")
+	}
+	if p.private {
+		parts = append(parts, "v")
+	}
+	if p.defaultValue != nil {
+		parts = append(parts, "d"+strconv.FormatInt(*p.defaultValue, 10))
+	}
+	if p.tag != nil {
+		parts = append(parts, "t"+strconv.Itoa(*p.tag))
+	}
+	if p.stringType != 0 {
+		parts = append(parts, "s"+strconv.Itoa(p.stringType))
+	}
+	if p.timeType != 0 {
+		parts = append(parts, "m"+strconv.Itoa(p.timeType))
+	}
+	if p.set {
+		parts = append(parts, "S")
+	}
+	if p.omitEmpty {
+		parts = append(parts, "E")
+	}
+	if len(parts) == 0 {
+		return "-"
+	}
+	out := parts[0]
+	for _, x := range parts[1:] {
+		out += "," + x
+	}
+	return out
+}
